@@ -95,6 +95,33 @@ const MUST_REACH: &[&str] = &[
     "epilogue_ready",
     "uncancelled_stays_pending",
     "dropped_op_swallowed_bytes",
+    // the combinator nesting that carries the token (route dimension)
+    "token_through_personality_nesting",
+    "latereg_through_personality_nesting",
+    "token_through_extra_nesting",
+    "latereg_through_extra_nesting",
+    "token_through_failfast",
+    "failfast_answered_cancelled",
+    "token_scope_around_stream_consumer",
+    // multishot receive streams as cancellable subjects
+    "cancel_task",
+    "multishot_cancelled_with_untaken_chunks",
+    "multishot_token_untaken_0",
+    "multishot_token_untaken_1",
+    "multishot_token_untaken_2",
+    "multishot_drop_untaken_0",
+    "multishot_drop_untaken_1",
+    "multishot_drop_untaken_2",
+    "multishot_taskcancel_untaken_0",
+    "multishot_taskcancel_untaken_1",
+    "multishot_timeout_untaken_0",
+    "multishot_timeout_untaken_1plus",
+    "cancelled_stream_delivered_reaped_chunk",
+    "stream_reported_cancel_error",
+    "cancelled_stream_ended",
+    "cancelled_stream_stopped_consuming",
+    "dropped_stream_swallowed_bytes",
+    "epilogue_stream_delivers",
 ];
 
 fn drivers() -> Vec<DriverType> {
@@ -261,7 +288,7 @@ fn items<'a>(scs: &'a [Scenario], pl: &Plan) -> (Vec<Item<'a>>, Vec<vcore::Value
                 let depth = if d == DriverType::Poll {
                     pl.depth_poll + sc.deeper as usize * pl.bounds.deeper_bonus
                 } else {
-                    pl.depth_iour
+                    pl.depth_iour + sc.iour_bonus
                 };
                 if seq.len() > depth {
                     continue;
@@ -271,7 +298,8 @@ fn items<'a>(scs: &'a [Scenario], pl: &Plan) -> (Vec<Item<'a>>, Vec<vcore::Value
             }
         }
         per_scenario.push(json!({"scenario": sc.name, "executions": n,
-            "ops": sc.ops.iter().map(|o| format!("{}@fd{}/{}", o.kind.name(), o.fd, o.tok_name())).collect::<Vec<_>>()}));
+            "ops": sc.ops.iter().map(|o| o.describe()).collect::<Vec<_>>(),
+            "extra_ready_steps": sc.more_ready, "extra_reap_steps": sc.more_reap, "extra_depth_iour": sc.iour_bonus}));
     }
     if let Ok(f) = std::env::var("C05_ONLY") {
         items.retain(|i| i.sc.name == f);
@@ -483,6 +511,23 @@ fn main() {
          ALL step sequences over {Submit, Drop(i), Tok(k), Timeout(i), Ready(fd), Harvest, Reap} allowed by the harness-level \
          enabledness rules up to the depth bound (every prefix is its own execution), each on a fresh Runtime on the real kernel; \
          states = executions; distinct_nontrivial = distinct (driver, per-op cancellation routes, per-op result class) signatures",
+    );
+    report.rule(
+        "route dimension: the token reaches the operation through every nesting of the public combinators that can carry it \
+         (with_cancel; with_personality(0) then with_cancel; with_cancel then with_personality(0); personality on both sides; \
+         Submit::with_extra inside with_cancel, also under a personality; a personality nesting inside an outer cancel scope; \
+         with_cancel(..).fail_fast()), each as an operation of a two-operation scenario explored like the others (token fired \
+         before and after submission)",
+    );
+    report.rule(
+        "stream subjects: a multishot receive stream (SubmitMultiStream over RecvMulti on the runtime's buffer pool, as compio-net's \
+         recv_multi/read_multi) drained by a consumer loop, alone, next to a single-shot recv on the same socket, inside a spawned task \
+         (Drop = cancel the task), under a personality nesting and with the scope around the consumer; up to 2 extra Ready / 1 extra Reap \
+         steps so that 0, 1 and 2 chunks are taken from the socket but not yet handed out when the token fires / the stream is dropped / \
+         the task is cancelled; oracle: items are runs of what the peer wrote, a cancelled stream ends within the settle bound, at its end \
+         nothing taken from the socket is undelivered (only a stream dropped unfinished may take undelivered chunks with it), delivered + \
+         swallowed-by-drop + still readable == written, an uncancelled stream never ends and keeps delivering, and once all readers are \
+         finished or cancelled a fresh burst stays in the socket",
     );
 
     // ---- run
